@@ -29,9 +29,12 @@ def col(dm, name=None):
 
 
 def PROOFS():
-    from ..contracts import transforms_c, scanner_c   # noqa: F401
+    from ..contracts import transforms_c, scanner_c, offset_c, lemmas_c   # noqa: F401
     T = "formulae.transforms."
     return [("vf.contracts.transforms_c", [T + "binary", T + "Proportion.__init__", T + "Proportion.eval"]),
+            # offset(v): the column unchanged / the constant broadcast, refused as a response, the constant re-broadcast over the NEW frame
+            ("vf.contracts.offset_c", offset_c.FUNCTIONS),
+            ("vf.contracts.lemmas_c", ["vf.proplemmas.c16.constant_offset"]),
             # the success value / the constant trials / the constant offset the helpers receive is Python's reading of the literal's text
             ("vf.contracts.scanner_c", ["formulae.scanner.Scanner." + f for f in ("number", "floatnum", "char", "add_token")])]
 
